@@ -73,6 +73,9 @@ class C02(DocProp):
                     words[r.randint(1, n - 1)] = r.choice(HAZ_ESCAPED + [w for w in HAZ_UNESCAPED if w not in ("\\", "|")])
                 if not words[0][:1].isalpha():
                     words[0] = "Start"
+                bt = [k_ for k_, w_ in enumerate(words) if "`" in w_]
+                for k_ in bt[1:]:
+                    words[k_] = "word"  # (two fence look-alikes would pair up as a code span)
                 ii, _si = r.choice(CONTAINERS)
                 yield {"kind": "text", "text": ii + " ".join(words) + "\n", "feats": ["hazard"], "profile": "hazard",
                        "opts": [rand_opts(r, widths=[r.randint(4, 30), r.randint(10, 70)], force={"semantic": False}),
